@@ -26,10 +26,11 @@ from pathlib import Path
 from ..core import Check, MachineryError, TLCResult, main, run_tlc
 from . import c04_replay as R
 
-INVS = ("Theorem", "CodedOutsideD8", "LastIsAPoint")
+INVS = ("Theorem", "CodedOutsideD8", "MeasureTheorem", "LastIsAPoint")
 NPROC = 8
 CHUNK = 25000          # reports judged per TLC start
 D8_WHY = "minimal_only_if_recorded_violation_after_missing_constraint_is_ignored"
+ACCEPTED_PARETO = ("ok", "no_front", "not_called", "nothing_to_report", "nothing_reported_all_candidates_duplicated")
 CLASSES = ("feasible_with_objective", "feasible_without_usable_objective",
            "infeasible_fully_evaluated", "infeasible_partially_evaluated")
 
@@ -91,6 +92,40 @@ def physical(c, h):
             "database (x_i=[i], in order)": out}
 
 
+def repro(c, h):
+    """A stand-alone script that rebuilds the instance (for the replay file of a violation)."""
+    lines = ["from numpy import array, nan",
+             "from gemseo.algos.design_space import DesignSpace",
+             "from gemseo.algos.optimization_problem import OptimizationProblem",
+             "from gemseo.algos.optimization_result import OptimizationResult",
+             "from gemseo.core.mdo_functions.mdo_function import MDOFunction",
+             "ds = DesignSpace(); ds.add_variable('x', lower_bound=0., upper_bound=100., value=1.)",
+             f"p = OptimizationProblem(ds, use_standardized_objective={c['std']})",
+             "p.objective = MDOFunction(lambda x: x, 'f')"]
+    for k, con in enumerate(c["cons"]):
+        lines.append(f"p.add_constraint(MDOFunction(lambda x: x, 'c{k + 1}'), constraint_type='{con['ty']}')")
+    if c["max"]:
+        lines.append("p.minimize_objective = False")
+    lines.append(f"p.tolerances.inequality = {c['tolI'] / R.SCALE}; p.tolerances.equality = {c['tolE'] / R.SCALE}")
+    lines.append("p.preprocess_functions(is_function_input_normalized=False)")
+
+    def lit(v):
+        return "nan" if v == R.NAN else repr(v / R.SCALE)
+
+    for i, pt in enumerate(h):
+        out = []
+        if pt["f"]:
+            out.append(f"p.standardized_objective_name: " + (f"array([{lit(pt['f'][0])}])" if c["farr"] else lit(pt["f"][0])))
+        for k, con in enumerate(c["cons"]):
+            if pt["c"][k]:
+                out.append(f"'c{k + 1}': " + (f"array([{', '.join(lit(v) for v in pt['c'][k])}])" if con["d"] >= 1 else lit(pt["c"][k][0])))
+            if pt["g"][k]:
+                out.append(f"'@c{k + 1}': array([[{float(pt['g'][k])}]] * {max(con['d'], 1)})")
+        lines.append(f"p.database.store(array([{float(i + 1)}]), {{{', '.join(out)}}})")
+    lines.append("print(p.optimum); print(p.history.last_point); print(OptimizationResult.from_optimization_problem(p))")
+    return lines
+
+
 class Agg:
     """Violations of one slice, aggregated by signature (count + first details)."""
 
@@ -134,22 +169,24 @@ def history_group(a):
             for v in json_lines(r2.out):
                 if not (isinstance(v, list) and v and v[0] == "V"):
                     continue
-                _, tid, cls, optv, optwhy, resv, reswhy, lastv, fpv = v
+                _, tid, cls, optv, optwhy, resv, reswhy, lastv, fpv, measv, measwhy = v
                 rec, errors = batch[tid - 1], meta[tid - 1]
                 seen += 1
                 res["verdicts"][("optimum", optv)] += 1
                 res["verdicts"][("result", resv)] += 1
                 res["verdicts"][("last_point", lastv)] += 1
                 res["verdicts"][("feasible_points", fpv)] += 1
+                res["verdicts"][("violation_measure", measv)] += 1
                 for what, verdict, why, key in (("optimum", optv, optwhy, "opt"), ("result", resv, reswhy, "res"),
-                                                ("last_point", lastv, "-", "last"), ("feasible_points", fpv, "-", "fp")):
+                                                ("last_point", lastv, "-", "last"), ("feasible_points", fpv, "-", "fp"),
+                                                ("violation_measure", measv, measwhy, "vm")):
                     if verdict == "ok":
                         continue
                     sig = {"what": what, "clause": verdict, "cls": cls}
                     if why != "-":
                         sig["why"] = why
                     det = {"instance": physical(rec["c"], rec["h"]), "spec_instance": {"c": rec["c"], "h": rec["h"]},
-                           "reported": rec[key]}
+                           "reported": rec[key], "repro": repro(rec["c"], rec["h"])}
                     if what in errors:
                         sig["exception"] = errors[what]["exception"]
                         det["exception"] = errors[what]["repr"]
@@ -202,10 +239,12 @@ def history_group(a):
     return res
 
 
-def pareto_chunk(cases):
+def pareto_chunk(a):
+    cases, thorough = a
     out = []
     for cs in cases:
-        rec, errors = R.replay_pareto(cs["pts"])
+        # quick: the multi-objective result (which builds the front a second time) for <= 3 points
+        rec, errors = R.replay_pareto(cs["pts"], with_result=thorough or len(cs["pts"]) <= 3)
         out.append((rec, errors, sorted(rec["mask"]) == sorted(cs["front"])))
     return out
 
@@ -236,7 +275,13 @@ def run(ck: Check):
     ctx = mp.get_context("fork")
     with ctx.Pool(NPROC) as pool:
         # ---- 1-3. slices: enumerate (TLC), replay (gemseo), judge (TLC)
-        results = list(pool.imap_unordered(history_group, [(g, tier, units, str(ck.work)) for g, units in enumerate(groups)]))
+        it = pool.imap_unordered(history_group, [(g, tier, units, str(ck.work)) for g, units in enumerate(groups)])
+        results = []
+        for _ in groups:
+            try:
+                results.append(it.next(timeout=7200))   # a worker that died would otherwise block for ever
+            except mp.TimeoutError:
+                raise MachineryError("a slice did not come back within 2 h (worker process lost?)") from None
         results.sort(key=lambda x: x["gid"])
         for x in results:
             if x["error"]:
@@ -292,7 +337,7 @@ def merge_history(ck: Check, results, expected):
     for cls in CLASSES:
         if not classes[cls]:
             raise MachineryError(f"vacuity: no history of class {cls} in the family")
-    for what in ("optimum", "result", "last_point", "feasible_points"):
+    for what in ("optimum", "result", "last_point", "feasible_points", "violation_measure"):
         if not verdicts[(what, "ok")]:
             raise MachineryError(f"vacuity: no accepted {what} report")
     ck.traces += tot["n"]
@@ -338,7 +383,7 @@ def pareto_cfg(conf, report=False):
 
 
 def pareto(ck: Check, pool):
-    n_total = nothing = 0
+    n_total = 0
     mask_eq = Counter()
     verd = Counter()
     for conf in PARETO_CFGS[ck.tier]:
@@ -348,7 +393,7 @@ def pareto(ck: Check, pool):
             raise MachineryError(f"OptPareto: {r.distinct} instances, {len(cases)} emitted")
         k = max(1, len(cases) // (NPROC * 4))
         chunks = [cases[i:i + k] for i in range(0, len(cases), k)]
-        out = [x for ch in pool.map(pareto_chunk, chunks) for x in ch]
+        out = [x for ch in pool.map(pareto_chunk, [(ch, ck.thorough) for ch in chunks]) for x in ch]
         recs = [x[0] for x in out]
         f = ck.work / "pareto-reports.json"
         f.write_text(json.dumps(recs))
@@ -358,17 +403,17 @@ def pareto(ck: Check, pool):
         for v in json_lines(r2.out):
             if not (isinstance(v, list) and v and v[0] == "P"):
                 continue
-            _, tid, maskv, frontv = v
+            _, tid, maskv, frontv, mov = v
             rec, errors, eq = out[tid - 1]
             seen += 1
             mask_eq[eq] += 1
-            verd[("mask", maskv)] += 1
+            verd[("filter", maskv)] += 1
             verd[("front", frontv)] += 1
-            if frontv == "nothing_to_report":
-                nothing += 1
+            verd[("multiobjective_result", mov)] += 1
             for what, verdict, key, ekey in (("pareto_filter", maskv, "mask", "compute_pareto_optimal_points"),
-                                            ("pareto_front", frontv, "front", "pareto_front")):
-                if verdict in ("ok", "nothing_to_report"):
+                                            ("pareto_front", frontv, "front", "pareto_front"),
+                                            ("multiobjective_result", mov, "mo", "multiobjective_result")):
+                if verdict in ACCEPTED_PARETO:
                     continue
                 sig = {"what": what, "clause": verdict}
                 det = {"points (objective v/4, feasible)": rec["pts"], "reported": rec[key]}
@@ -382,13 +427,17 @@ def pareto(ck: Check, pool):
         n_total += seen
         if len(ck.samples) < 6:
             ck.sample({"pareto_points": recs[len(recs) // 2]["pts"], "front_reported": recs[len(recs) // 2]["front"]})
-    if not verd[("front", "ok")] or not verd[("mask", "ok")]:
+    if not verd[("front", "ok")] or not verd[("filter", "ok")] or not verd[("multiobjective_result", "ok")]:
         raise MachineryError("vacuity: no accepted Pareto report")
     ck.traces += n_total
     ck.extra["pareto_instances"] = n_total
     ck.extra["pareto_verdicts"] = {f"{w}:{v}": n for (w, v), n in sorted(verd.items())}
     ck.extra["pareto_filter_equals_transcription"] = [mask_eq[True], n_total]
-    ck.extra["pareto_front_raises_when_the_filter_keeps_no_point"] = nothing
+    # outside the statement (nothing is reported), recorded as an observation: ParetoFront /
+    # MultiObjectiveOptimizationResult raise ValueError when the filter keeps no point
+    ck.extra["pareto_front_raises_when_the_filter_keeps_no_point"] = {
+        "no_feasible_point_with_objective": verd[("front", "nothing_to_report")],
+        "feasible_candidates_all_duplicated": verd[("front", "nothing_reported_all_candidates_duplicated")]}
 
 
 if __name__ == "__main__":
